@@ -148,6 +148,19 @@ impl CaretPos {
         }
     }
 
+    /// Caret position after moving over the given source text: each newline
+    /// moves to the start of the next line, any other character one column.
+    #[must_use]
+    pub fn advance_over(self, text: &str) -> CaretPos {
+        text.chars().fold(self, |caret, c| {
+            if c == '\n' {
+                caret.newline()
+            } else {
+                caret.offset_pos(1)
+            }
+        })
+    }
+
     #[must_use]
     pub fn newline(self) -> CaretPos {
         CaretPos {
